@@ -25,11 +25,12 @@ Definition system_dep (w : world) (n : str) (wanted : list str) : option dep :=
   | None => None
   end.
 
-(* What a configured subproject s offers for the name n: the dependency it (or anyone)
-   registered with meson.override_dependency(n, ...), else the variable named in
-   fallback: [s, var] or in the wrap's [provide] section. *)
-Definition sub_offer (w : world) (st : state) (s : str) (var : option str) (n : str) : dep :=
-  match assoc n (s_over st) with
+(* What a configured subproject s offers for the name n looked up with `static: sk`: the
+   dependency it (or anyone) registered under the identifier (n, sk) with
+   meson.override_dependency, else the variable named in fallback: [s, var] or in the
+   wrap's [provide] section. *)
+Definition sub_offer (w : world) (st : state) (s : str) (var : option str) (sk : option bool) (n : str) : dep :=
+  match assoc (ident sk n) (s_over st) with
   | Some (d, _) => d
   | None =>
       let var := if truthy var then var
@@ -79,35 +80,36 @@ Definition fallback_of (w : world) (o : opts) (st : state) (n : str) (kw : kwarg
 
 (* "a fallback subproject is configured": configure s unless that has happened already
    (interpreter.py do_subproject) and take what it offers *)
-Definition use_subproject (w : world) (st : state) (s : str) (var : option str) (n : str)
-           (wanted : list str) (required : bool) : outcome :=
-  match do_subproject w st s required with
+Definition use_subproject (w : world) (st : state) (s : str) (var : option str) (sk : option bool) (n : str)
+           (wanted : list str) (required : bool) (dl : dlib) : outcome :=
+  match do_subproject w st s required dl with
   | Err => OErr
-  | Ok st' => if get_subproject st' s then vet wanted required (sub_offer w st' s var n)
+  | Ok st' => if get_subproject st' s then vet wanted required (sub_offer w st' s var sk n)
               else fail required
   end.
 
 Definition policy (w : world) (o : opts) (st : state) (n : str) (kw : kwargs) : outcome :=
   let required := k_required kw in
   let wanted := k_version kw in
+  let sk := k_static kw in
   if bad_name n then OErr else
   match fallback_of w o st n kw with
   | FbInvalid => OErr
   | fb =>
-    match assoc n (s_over st) with
+    match assoc (ident sk n) (s_over st) with
     | Some (d, _) => vet wanted required d                    (* 1. an overridden dependency wins *)
     | None =>
         match fb with
         | FbSub s var =>
             if get_subproject st s
-            then vet wanted required (sub_offer w st s var n)  (* 2. fallback subproject already configured *)
+            then vet wanted required (sub_offer w st s var sk n)  (* 2. fallback subproject already configured *)
             else if forced o n s
-            then use_subproject w st s var n wanted required   (* 3. forced: the system is not consulted *)
+            then use_subproject w st s var sk n wanted required (eff_dl o s sk (k_deflib kw))   (* 3. forced: the system is not consulted *)
             else match system_dep w n wanted with
                  | Some d => OFound d                          (* 4. the system dependency *)
                  | None =>
                      if is_nofallback (o_wrap_mode o) then fail required   (* 5. wrap_mode=nofallback *)
-                     else use_subproject w st s var n wanted required      (* 6. configure the fallback *)
+                     else use_subproject w st s var sk n wanted required (eff_dl o s sk (k_deflib kw))   (* 6. configure the fallback *)
                  end
         | _ =>
             match system_dep w n wanted with
@@ -123,7 +125,7 @@ Definition policy (w : world) (o : opts) (st : state) (n : str) (kw : kwargs) : 
    fallback subproject is used only if none of the names is found on the system; once one name
    has been found all names answer with it" (docs/yaml/functions/dependency.yaml, varargs). *)
 
-(* the first name, in order, that somebody has overridden *)
+(* the first identifier, in order, that somebody has overridden *)
 Fixpoint first_override (st : state) (names : list str) : option dep :=
   match names with
   | [] => None
@@ -199,8 +201,8 @@ Definition sub_offerN (w : world) (st : state) (s : str) (var : option str) (nam
   end.
 
 Definition use_subprojectN (w : world) (st : state) (s : str) (var : option str) (names : list str)
-           (wanted : list str) (required : bool) : outcome :=
-  match do_subproject w st s required with
+           (wanted : list str) (required : bool) (dl : dlib) : outcome :=
+  match do_subproject w st s required dl with
   | Err => OErr
   | Ok st' => if get_subproject st' s then vet wanted required (sub_offerN w st' s var names)
               else fail required
@@ -211,23 +213,24 @@ Definition policyN (w : world) (o : opts) (st : state) (names0 : list str) (kw :
   let required := k_required kw in
   let wanted := k_version kw in
   if negb (names_ok [] names) then OErr else                     (* <, >, = in a name; a duplicate *)
+  let ids := map (ident (k_static kw)) names in                  (* identifiers (name, static) *)
   match fallback_ofN w o st names kw with
   | FbInvalid => OErr
   | fb =>
-    match first_override st names with
+    match first_override st ids with
     | Some d => vet wanted required d                            (* 1. an overridden name wins *)
     | None =>
         match fb with
         | FbSub s var =>
             if get_subproject st s
-            then vet wanted required (var_offer w s var names)   (* 2. fallback subproject already configured *)
+            then vet wanted required (var_offer w s var ids)     (* 2. fallback subproject already configured *)
             else if forcedN o names s
-            then use_subprojectN w st s var names wanted required    (* 3. forced *)
+            then use_subprojectN w st s var ids wanted required (eff_dl o s (k_static kw) (k_deflib kw))   (* 3. forced *)
             else match first_system w names wanted with
                  | Some d => OFound d                            (* 4. the first name the system has *)
                  | None =>
                      if is_nofallback (o_wrap_mode o) then fail required
-                     else use_subprojectN w st s var names wanted required   (* 6. configure the fallback *)
+                     else use_subprojectN w st s var ids wanted required (eff_dl o s (k_static kw) (k_deflib kw))   (* 6. configure the fallback *)
                  end
         | _ =>
             match first_system w names wanted with
